@@ -194,8 +194,8 @@ from props import C07 as _LIFE
 class AbandonPart(_LIFE.PlStopPart):
     """peer's view of a connection whose application abandons a streamed payload: nothing but the PUBLISH, its payload
     and a PINGREQ was sent and nothing closed the connection, so it must stay open without a Stop notification
-    (clause 24), and once the whole payload, the PINGREQ and the handler's completion have happened the peer holds
-    exactly one PUBACK and one PINGRESP per PINGREQ (clause 25)"""
+    (clause 31), and once the whole payload, the PINGREQ and the handler's completion have happened the peer holds
+    exactly one PUBACK and one PINGRESP per PINGREQ (clause 32)"""
 
     def py_oracle(self, case, obs):
         if obs == "9999":
@@ -222,9 +222,9 @@ class AbandonPart(_LIFE.PlStopPart):
                 done = True
             got += st[4:]
             if st[2] != 0 or st[3] != 1:
-                return "0,24,%d" % i
+                return "0,31,%d" % i
         if header and pinged and done and sent == declared and sorted(got) != [64] + [208] * pinged:
-            return "0,25,%d" % (len(ops) - 1)
+            return "0,32,%d" % (len(ops) - 1)
         return "1"
 
 
@@ -278,9 +278,9 @@ cc.DEC_CLAUSES["11"] = ("the packets (payload pieces glued) obtained from this f
                         "another fragmentation of the same byte stream")
 
 
-cc.DEC_CLAUSES["24"] = ("the application abandoned a streamed payload and the connection was ended (Stop / closed) "
+cc.DEC_CLAUSES["31"] = ("the application abandoned a streamed payload and the connection was ended (Stop / closed) "
                         "although the peer sent nothing but the PUBLISH, its payload and a PINGREQ")
-cc.DEC_CLAUSES["25"] = ("after an abandoned payload the peer does not hold exactly one PUBACK and one PINGRESP per PINGREQ although "
+cc.DEC_CLAUSES["32"] = ("after an abandoned payload the peer does not hold exactly one PUBACK and one PINGRESP per PINGREQ although "
                         "the whole payload, the PINGREQ and the handler's completion have happened")
 cc.DEC_CLAUSES["21"] = "panic while reading the payload"
 cc.DEC_CLAUSES["22"] = "the handler holds bytes that are not a prefix of the payload bytes sent (lost, duplicated or reordered)"
